@@ -267,6 +267,10 @@ def tstr(t, depth=0):
         return str(t)
     if depth > 12:
         return "…"
+    if not t:
+        return "()"
+    if not isinstance(t[0], str):
+        return "(%s)" % ", ".join(tstr(a, depth + 1) for a in t)
     k = t[0]
     d = depth + 1
     if k == "int":
@@ -657,6 +661,7 @@ class Interp:
         res = None
         handled = False
         mem_before = st.mem
+        argvals = tuple(self.read_pl(st, a[1]) if (isinstance(a, tuple) and a and a[0] == "ref" and place_is_local(a[1])) else None for a in args)
         ax = self.extra_axioms.get(key) or self.extra_axioms.get(gpath) or AXIOMS.get(key) or AXIOMS.get(gpath)
         if ax is None and trait:
             ax = self.extra_axioms.get((trait, name)) or AXIOMS.get((trait, name))
@@ -690,7 +695,7 @@ class Interp:
                     res = ("call", key, cargs + (("mem", self.reduce_mem(st.mem, places)),), None)
             else:
                 res = ("call", key, args, uid)
-        ev = Event("call", bb, callee=key, fn=fn, args=args, res=res, state=(st.facts, mem_before, st.path), extra={"pure": pure, "handled": handled, "dest": t["dest"], "name": name, "trait": trait, "gpath": gpath})
+        ev = Event("call", bb, callee=key, fn=fn, args=args, res=res, state=(st.facts, mem_before, st.path), extra={"pure": pure, "handled": handled, "dest": t["dest"], "name": name, "trait": trait, "gpath": gpath, "argvals": argvals})
         st.add_event(ev)
         if not pure:
             # memory and by-&mut locals may change
